@@ -202,11 +202,13 @@ len_is_0:
         movdqu  [tmp1], xmm0
 
 %ifdef SAFE_DATA
-        ;; clear returned jobs and "NULL lanes"
+        ;; clear IVs of returned job and "NULL lanes"
+        pxor    xmm0, xmm0
 %assign I 0
 %rep NUM_LANES
 	cmp	qword [state + _aes_job_in_lane + I*8], 0
 	jne	APPEND(skip_clear_,I)
+	movdqa	[state + _aes_args_IV + I*16], xmm0
 APPEND(skip_clear_,I):
 %assign I (I+1)
 %endrep
